@@ -12,7 +12,7 @@ GHOST_RANGE_DEFS
 
 typedef struct {
     zckCtx anyz; zckRangeItem anyp, anyn; zckRange anyr; zckChunk anyc, anyl;
-    int zck_null, have_prev, have_next, have_info, have_last, add_index;
+    int longer, zck_null, have_prev, have_next, have_info, have_last, add_index;
     uint64_t start, end;
     int dsize; unsigned rx0;
 } IN_ins;
@@ -29,8 +29,10 @@ void h_range_insert_new(void) {
     V_ASSUME(in.add_index == 0 || in.have_info);
     if(in.have_info) {
         info = malloc(sizeof(*info)); V_ASSUME(info != NULL); *info = in.anyr;
-        info->index.last = NULL;
-        if(in.have_last) { info->index.last = malloc(sizeof(zckChunk)); V_ASSUME(info->index.last != NULL); *info->index.last = in.anyl; }
+        info->index.last = NULL; info->index.first = NULL;
+        if(in.have_last) { info->index.last = malloc(sizeof(zckChunk)); V_ASSUME(info->index.last != NULL); *info->index.last = in.anyl;
+            info->index.first = info->index.last;
+            if(in.longer) { info->index.first = malloc(sizeof(zckChunk)); V_ASSUME(info->index.first != NULL); *info->index.first = in.anyl; } }
         idx = malloc(sizeof(*idx)); V_ASSUME(idx != NULL); *idx = in.anyc;
         V_ASSUME(in.dsize >= 0 && in.dsize <= 64);
         idx->digest_size = in.dsize;
